@@ -128,9 +128,11 @@ CLAIMS = {
              'invariant under every column permutation and equal for Series / 1-d / 2-d array forms, row-independent, ignores '
              'extra columns, has the training width; pdf/cdf/log-pdf inherit it; log pdf = log(pdf); scores monotone in each '
              'coordinate given monotone marginals, cdf in [0,1] and coordinate-wise monotone given the MVN CDF spec; pdf and '
-             'cdf defined for singular correlations (allow_singular on both); executable Cholesky MVN density positive.',
-        note='scipy multivariate_normal pdf/cdf are external symbols (cdf is QMC: never compared tighter than 1e-3); '
-             'Cholesky success for every PD matrix proved only for d <= 2',
+             'cdf defined for singular correlations (allow_singular on both); Props/C13b: the executable Cholesky model succeeds '
+             'for every symmetric positive definite matrix of every dimension (L lower triangular, positive diagonal, '
+             'L L^T = Sigma) and IS the textbook density exp(-z^T Sigma^-1 z / 2) / sqrt((2 pi)^d det Sigma) (Mathlib Matrix.inv/det).',
+        note='scipy multivariate_normal pdf/cdf are external symbols (cdf is QMC: never compared tighter than 1e-3); the '
+             'Cholesky model is compared with scipy pdf numerically every run',
         tech='Lean 4 proof over plan terms from a translator-regenerated model + bit-exact plan interpretation', ref='5 C13'),
     'C14': dict(
         text='Lean 4 theorems about dict models of every class with key tables regenerated from the AST: from_dict(to_dict(s)) '
@@ -190,7 +192,10 @@ CLAIMS = {
              'hypothesis, sampling visits every variable exactly once (n rows, training columns); tied bit-for-bit by '
              'interpreting the plan with the real bivariate objects (select_copula inputs, edge.U, likelihood under two '
              'np.empty sentinels, _sample_row under a seed).',
-        note='the parent-order assumption failing on direct/regular vines is a recorded finding (two classes); statistical '
+        note='Props/C17b proves the hypothesis (goodVine) for every center vine of any dimension, every vine with <= 3 '
+             'columns or <= 2 trees and the second tree of any vine, via an explicit conversion from the C16 construction '
+             'model, so the clauses are unconditional there; the assumption failing on deeper direct/regular vines is a '
+             'recorded finding (two classes, kernel-checked counter-example built by the construction model); statistical '
              'agreement for two-column tables only in deep search',
         tech='Lean 4 proof over a hand-written plan-term model + bit-exact plan interpretation on real fitted vines',
         ref='5 C17'),
